@@ -220,7 +220,7 @@ async def compress(
             return (item async for item, select in zip(data, selectors) if select)
     """
     async with ScopedIter(data) as data_iter, ScopedIter(selectors) as selectors_iter:
-        async for item, keep in zip(data_iter, selectors_iter):
+        async for item, keep in zip(_borrow(data_iter), _borrow(selectors_iter)):
             if keep:
                 yield item
 
@@ -291,7 +291,7 @@ async def islice(iterable: AnyIterable[T], *args: Optional[int]) -> AsyncIterato
                 # exhausted before reaching ``start``: do not poll the iterator again
                 return
         if stop is None:
-            async for idx, element in aenumerate(async_iter, start=0):
+            async for idx, element in aenumerate(_borrow(async_iter), start=0):
                 if not idx % step:
                     yield element
         elif stop <= start:
@@ -300,7 +300,7 @@ async def islice(iterable: AnyIterable[T], *args: Optional[int]) -> AsyncIterato
             # We would actually check ``idx >= stop -1`` later on.
             # Since we do that for every ``idx``, we subtract ``1`` once here.
             stop -= start + 1
-            async for idx, element in aenumerate(async_iter, start=0):
+            async for idx, element in aenumerate(_borrow(async_iter), start=0):
                 if not idx % step:
                     yield element
                 if idx >= stop:
